@@ -6,10 +6,12 @@ CPT = [r"impl<'ctx> NaivePriceRepository<'ctx>", r"fn compute_price_table\b"]
 GROUP = {
     "name": "prices",
     "uses": "use std::collections::HashMap;\nuse vstd::std_specs::hash::*;\nuse vstd::std_specs::cmp::*;\n",
+    "broadcast": ["key_axioms::axiom_commodity_key_model"],
     "parts": [
         ("text", "rust_decimal.rs"),
         ("text", "handles.rs"),
         ("text", "chrono.rs"),
+        ("text", "prices_base.rs"),
         ("text", "prices_spec.rs"),
         U("Distance(type)", PD, [r"struct Distance\b"], derive="Clone"),
         # the criteria are compared lexicographically in field order (derive(Ord)): the order of the fields is the priority
@@ -53,6 +55,93 @@ GROUP = {
 }"""),
         U("anchor:no usable price means no edge", PD, CPT, no_canary=True,
           slice=r"(if bound == 0 \{)", slice_count=1, slice_template="/* anchor: {EXPR} */\n"),
+        # ---- recording a price: source precedence (the price database replaces ledger-derived prices of the same pair) ----
+        U("anchor:PriceSource variant order", PD, [r"enum PriceSource\b"], no_canary=True,
+          slice=r"(enum PriceSource \{\s*Ledger,\s*PriceDB,\s*\})", slice_count=1, slice_template="/* anchor: {EXPR} */\n"),
+        U("Entry(type)", PD, [r"struct Entry\b"]),
+        U("PriceRepositoryBuilder(type)", PD, [r"struct PriceRepositoryBuilder<'ctx>"]),
+        U("PriceRepositoryBuilder::insert_impl", PD, [r"impl<'ctx> PriceRepositoryBuilder<'ctx>", r"fn insert_impl\b"], fn="insert_impl",
+          wrap=("impl PriceRepositoryBuilder {", "}"),
+          rewrites=[("R9-stub", "SingleAmount", "SingleAmountStub", 2), ("R28",)],
+          contract="""
+        requires
+            price_of.value.val() != 0real,   // insert_price filters zero amounts (proved in the bookkeep group)
+            // call-order precondition (NOT proved at the call sites, see assumptions): a price of a lower-ranking source never arrives
+            // after a higher-ranking one of the same pair - `process` loads the price database after the whole ledger
+            slot(old(self).records@, price_with.commodity, price_of.commodity) matches Some(e) ==> source_rank(e.0) <= source_rank(source),
+        ensures
+            // C09: a price of a higher-ranking source (the price database) REPLACES everything recorded for the pair from a lower-ranking
+            //      one (the ledger); a price of the same source is added to what is recorded; the rate is price_with / price_of
+            slot(final(self).records@, price_with.commodity, price_of.commodity) matches Some(e) && e.0 == source && (
+                match slot(old(self).records@, price_with.commodity, price_of.commodity) {
+                    Some(o) if o.0 == source => e.1@.len() == o.1@.len() + 1 && e.1@.subrange(0, o.1@.len() as int) == o.1@,   // @insert_impl.same_source_price_is_added
+                    _ => e.1@.len() == 1,                                                                                      // @insert_impl.higher_source_replaces_recorded_prices
+                }),
+            ({ let e = slot(final(self).records@, price_with.commodity, price_of.commodity)->0;
+               e.1@.last().0 == date && e.1@.last().1.val() == price_with.value.val() / price_of.value.val() }),                 // @insert_impl.rate_is_price_with_over_price_of
+            // no other pair's prices are touched
+            forall|w: Commodity, o: Commodity| !(w == price_with.commodity && o == price_of.commodity) ==>
+                #[trigger] slot(final(self).records@, w, o) == slot(old(self).records@, w, o),                                   // @insert_impl.other_pairs_untouched
+"""),
+        # the call order that discharges insert_impl's precondition: `process` reads the price database after the whole ledger
+        U("anchor:process loads the price database after the ledger", "core/src/report/book_keeping.rs", [r"pub fn process<"], no_canary=True,
+          slice=r"(?s)loader\.borrow\(\)\.load\(.*?(accum\.price_repos\.load_price_db\(ctx, price_db_path\))", slice_count=1,
+          slice_template="/* anchor: loader.borrow().load(..) .. {EXPR} */\n"),
+        # ---- the search step (label correcting): what is compared, what is recorded, what a step costs ----
+        U("WithDistance(type)", PD, [r"struct WithDistance<T>"]),
+        U("WithDistance::eq(Distance)", PD, [r"impl<T> PartialEq<Distance> for WithDistance<T>"], no_canary=True),
+        U("WithDistance::partial_cmp(Distance)", PD, [r"impl<T: Eq> PartialOrd<Distance> for WithDistance<T>"], no_canary=True),
+        U("callsite:compute_price_table.relax", PD, CPT, fn="relax", no_canary=True,
+          slice=r"match distances\.entry\(\*j\) \{", slice_count=1, rewrites=[("R27",)],
+          slice_template="""fn relax(distances: &mut HashMap<Commodity, WithDistance<Decimal>>, j: &Commodity, next_dist: Distance, rate: Decimal) -> (updated: bool)
+    ensures
+        // C09: the chain recorded for `j` is replaced by a strictly better one - by (ledger-derived steps, steps, staleness) - and kept
+        //      against a strictly worse one; which of two equally good chains stays is not decided by the property (either, but
+        //      `updated` must say which); no other commodity's entry is touched
+        (!old(distances)@.contains_key(*j) || dist_cmp(old(distances)@[*j].0, next_dist) is Greater) ==> updated,   // @compute_price_table.better_chain_replaces_recorded_one
+        (old(distances)@.contains_key(*j) && dist_cmp(old(distances)@[*j].0, next_dist) is Less) ==> !updated,       // @compute_price_table.worse_chain_is_not_recorded
+        updated ==> final(distances)@ == old(distances)@.insert(*j, WithDistance(next_dist, rate)),                   // @compute_price_table.recorded_chain_is_the_new_one
+        !updated ==> final(distances)@ == old(distances)@,                                                              // @compute_price_table.rejected_chain_changes_nothing
+{
+    let updated = {EXPR};
+    updated
+}"""),
+        U("callsite:compute_price_table.stale_queue_entry", PD, CPT, fn="stale_queue_entry", no_canary=True,
+          slice=r"if (\*prev_dist < curr_dist) \{", slice_count=1,
+          slice_template="""fn stale_queue_entry(prev_dist: &Distance, curr_dist: Distance) -> (b: bool)
+    ensures
+        // C09: a queued chain is dropped unexpanded only when a strictly better chain to the same commodity is already recorded
+        b == (dist_cmp(*prev_dist, curr_dist) is Less),   // @compute_price_table.only_strictly_worse_queue_entries_are_skipped
+{
+    {EXPR}
+}"""),
+        U("callsite:compute_price_table.step_age", PD, CPT, fn="step_age", no_canary=True,
+          slice=r"curr_dist\.extend\(\*source, ([^)]*)\)", slice_count=1,
+          slice_template="""fn step_age(date: NaiveDate, record_date: NaiveDate) -> (r: TimeDelta)
+    ensures
+        // C09: the staleness of a step is the query date minus the date of the price used
+        r.secs == (date.day() - record_date.day()) * SECS_PER_DAY,   // @compute_price_table.staleness_is_query_date_minus_price_date
+{
+    {EXPR}
+}"""),
+        U("callsite:compute_price_table.chain_rate", PD, CPT, fn="chain_rate", no_canary=True,
+          slice=r"let rate = (prev_rate \* rate);", slice_count=1,
+          slice_template="""fn chain_rate(prev_rate: Decimal, rate: Decimal) -> (r: Decimal)
+    ensures
+        // C09: the rate of a chain is the product of the rates of its steps
+        r.val() == prev_rate.val() * rate.val(),   // @compute_price_table.chain_rate_is_the_product_of_step_rates
+{
+    {EXPR}
+}"""),
+        U("callsite:compute_price_table.start", PD, CPT, fn="start_distance", no_canary=True,
+          slice=r"queue\.push\(WithDistance\(\s*(Distance \{[^}]*\}),\s*\(price_with, Decimal::ONE\),", slice_count=1,
+          slice_template="""fn start_distance() -> (r: Distance)
+    ensures
+        // C09: the target commodity itself is at distance zero (rate one: textually `Decimal::ONE` in the same statement)
+        r.num_ledger_conversions == 0, r.num_all_conversions == 0, r.staleness.secs == 0,   // @compute_price_table.search_starts_at_zero_distance
+{
+    {EXPR}
+}"""),
         # A into A is the identity
         U("callsite:convert_single.identity", PD, [r"impl<'ctx> PriceRepository<'ctx>", r"pub fn convert_single\b"], fn="is_identity_case", no_canary=True,
           slice=r"if (value\.commodity == commodity_with) \{\s*return Ok\(value\);", slice_count=1,
